@@ -2386,11 +2386,15 @@ def _inline_temp(fn, name, allow_calls=False, ref_calls=None,
     last = max(x.lineno for x in loads)
     load_ids = {id(x) for x in loads}
     # `self.<obj>` for every chain self.<obj>.<attr>... read by the value
+    # (property reads only: the callee look-up of `self.core.getter(i)` is
+    # not a read of state)
     sub_objects = set()
+    callee_ids = {id(c.func) for c in ast.walk(val)
+                  if isinstance(c, ast.Call)}
     for x in ast.walk(val):
         if isinstance(x, ast.Attribute) and isinstance(x.value, ast.Attribute) \
                 and isinstance(x.value.value, ast.Name) and \
-                x.value.value.id == 'self':
+                x.value.value.id == 'self' and id(x) not in callee_ids:
             sub_objects.add('self.' + x.value.attr)
     for s_ in later:
         if s_.lineno > last:
